@@ -43,6 +43,19 @@ func isConversion(info *types.Info, call *ast.CallExpr) (ast.Expr, bool) {
 // For multi-value assignments from a call it returns the call and the result index.
 func (fc *FuncCtx) SoleDefRHS(obj types.Object) (rhs ast.Expr, idx int, defV int, ok bool) {
 	defs := fc.Defs(obj)
+	// a value-less declaration (`var x T`) followed by exactly one assignment counts as that assignment
+	if len(defs) == 2 {
+		var keep []int
+		for _, d := range defs {
+			if vs, ok := fc.G.V[d].Node.(*ast.ValueSpec); ok && len(vs.Values) == 0 {
+				continue
+			}
+			keep = append(keep, d)
+		}
+		if len(keep) == 1 {
+			defs = keep
+		}
+	}
 	if len(defs) != 1 || len(fc.LitAssigns(obj)) > 0 {
 		return nil, 0, -1, false
 	}
